@@ -3,12 +3,10 @@ package mux
 // C11 — the multiplexer fails stop: no gaps after errors, and nothing hangs after close.
 
 import (
-	"encoding/json"
 	"errors"
 	"fmt"
 	"io"
 	"net"
-	"os"
 	"runtime"
 	"sync"
 	"sync/atomic"
@@ -135,6 +133,22 @@ type c11run struct {
 	cutDone    atomic.Bool
 	lenient    map[string]bool
 	classes    map[string]bool
+
+	ids       []uint32 // the case's ids plus, if needed, the barrier connection
+	syncConn  int      // index of the barrier connection (0 = none)
+	writeTrig map[int64]chan struct{}
+	stale     []*staleSet
+
+	eventsWaiting atomic.Int32 // failure / stale-close goroutines still waiting for their trigger
+	eventsRunning atomic.Int32 // ... applying their event
+	forceOnce     sync.Once
+	forceC        chan struct{} // closed when the case stops waiting for the triggers
+}
+
+func (r *c11run) addClass(k string) {
+	r.failMu.Lock()
+	r.classes[k] = true
+	r.failMu.Unlock()
 }
 
 func (r *c11run) failf(format string, a ...any) {
@@ -177,7 +191,7 @@ func (r *c11run) sawError(side, conn int, op string, err error) {
 	if errors.Is(err, io.EOF) {
 		r.eofSeen[side]++
 	} else if len(r.nonEOF[side]) < 8 {
-		r.nonEOF[side] = append(r.nonEOF[side], fmt.Sprintf("%s id=%d: %v", op, r.c.IDs[conn], err))
+		r.nonEOF[side] = append(r.nonEOF[side], fmt.Sprintf("%s id=%d: %v", op, r.ids[conn], err))
 	} else {
 		r.nonEOF[side] = append(r.nonEOF[side][:8], "...")
 	}
@@ -234,7 +248,7 @@ func expectedFrames(sizes []int) []frameRef {
 func runC11Mux(c C11Case) (ev.Outcome, bool) {
 	defer settleGoroutines(runtime.NumGoroutine())
 	r := &c11run{c: c, poke: make(chan struct{}, 1), trigC: make(chan struct{}), anyErrC: make(chan struct{}),
-		primaryDoneC: make(chan struct{}), writersDoneC: make(chan struct{}), lenient: map[string]bool{}, classes: map[string]bool{}}
+		primaryDoneC: make(chan struct{}), writersDoneC: make(chan struct{}), forceC: make(chan struct{}), lenient: map[string]bool{}, classes: map[string]bool{}}
 	f := c.Failure
 	var cut *cutConn
 	var wrap func(int, net.Conn) net.Conn
@@ -244,6 +258,7 @@ func runC11Mux(c C11Case) (ev.Outcome, bool) {
 				return raw
 			}
 			cut = &cutConn{Conn: raw, wLimit: -1, rLimit: -1, half: f.Half}
+			cut.armed.Store(len(c.Reopen) == 0)
 			if f.Kind == "cut_write" {
 				cut.wLimit = f.CutAfter
 			} else {
@@ -258,10 +273,29 @@ func runC11Mux(c C11Case) (ev.Outcome, bool) {
 			return cut
 		}
 	}
-	r.p = connectPair(c.QLen, c.Blocked, c.IDs, wrap)
+	r.ids = append([]uint32{}, c.IDs...)
+	for _, ro := range c.Reopen {
+		if ro.OldFrames > 0 && r.syncConn == 0 {
+			// an extra connection, never closed, used as a barrier: once its marker has arrived,
+			// every frame sent before it has been dispatched by the receiving mux
+			id := uint32(1)
+			for used := true; used; {
+				used = false
+				for _, x := range r.ids {
+					if x == id {
+						used = true
+						id++
+					}
+				}
+			}
+			r.syncConn = len(r.ids)
+			r.ids = append(r.ids, id)
+		}
+	}
+	r.p = connectPair(c.QLen, c.Blocked, r.ids, wrap)
 	defer r.p.shutdown()
 	for s := 0; s < 2; s++ {
-		r.observed[s] = make([]atomic.Bool, len(c.IDs))
+		r.observed[s] = make([]atomic.Bool, len(r.ids))
 	}
 
 	hookTrigger := verifhook.Enabled && f.HookPoint != "" && (f.Kind == "close_mux" || f.Kind == "close_conn")
@@ -277,11 +311,30 @@ func runC11Mux(c C11Case) (ev.Outcome, bool) {
 	remove := installDelays(c.Delays, extra)
 	defer remove()
 
+	// write-count triggers of the stale closes
+	r.writeTrig = map[int64]chan struct{}{}
+	for _, ro := range c.Reopen {
+		if ro.StaleDuring > 0 && r.writeTrig[int64(ro.StaleAfterWrites)] == nil {
+			ch := make(chan struct{})
+			r.writeTrig[int64(ro.StaleAfterWrites)] = ch
+			if ro.StaleAfterWrites <= 0 {
+				close(ch)
+			}
+		}
+	}
+	// prologue: close and re-open connection ids; all traffic of the case uses the new handles
+	if !r.prologue() {
+		return r.verdict(stacks())
+	}
+	if cut != nil {
+		cut.armed.Store(true)
+	}
+
 	var wg sync.WaitGroup
 	var writersWG sync.WaitGroup
 	for i := range c.Streams {
 		sp := c.Streams[i]
-		s := &c11stream{spec: sp, name: fmt.Sprintf("id=%d/dir=%d", c.IDs[sp.Conn], sp.Dir),
+		s := &c11stream{spec: sp, name: fmt.Sprintf("id=%d/dir=%d", r.ids[sp.Conn], sp.Dir),
 			wr: r.p.conns[sp.Dir][sp.Conn], rd: r.p.conns[1-sp.Dir][sp.Conn], wrSide: sp.Dir, rdSide: 1 - sp.Dir,
 			frames: expectedFrames(sp.Sizes), cred: newCredits(c.QLen),
 			writerExitC: make(chan struct{}), starvedC: make(chan struct{})}
@@ -315,19 +368,48 @@ func runC11Mux(c C11Case) (ev.Outcome, bool) {
 	}
 	go func() { writersWG.Wait(); close(r.writersDoneC); r.tick() }()
 
-	// the failure event
+	// the failure event (and the repeated closes of stale handles during the traffic)
 	primDone := make(chan struct{})
+	var eventsWG sync.WaitGroup
+	for _, st := range r.stale {
+		if st.ro.StaleDuring == 0 {
+			continue
+		}
+		st := st
+		eventsWG.Add(1)
+		go func() {
+			defer eventsWG.Done()
+			defer r.recoverPanic("stale close")
+			r.eventsWaiting.Add(1)
+			select {
+			case <-r.writeTrig[int64(st.ro.StaleAfterWrites)]:
+			case <-r.writersDoneC:
+			case <-r.forceC:
+			}
+			r.eventsRunning.Add(1)
+			r.eventsWaiting.Add(-1)
+			defer r.eventsRunning.Add(-1)
+			r.closeStale(st, st.ro.StaleDuring, "during the traffic")
+			r.addClass("stale_close_during_traffic")
+		}()
+	}
+	eventsWG.Add(1)
+	go func() { eventsWG.Wait(); close(primDone); r.tick() }()
 	go func() {
-		defer r.tick()
-		defer close(primDone)
+		defer eventsWG.Done()
 		defer r.recoverPanic("failure goroutine")
 		if f.Kind != "close_mux" && f.Kind != "close_conn" {
 			return
 		}
+		r.eventsWaiting.Add(1)
 		select {
 		case <-r.trigC:
 		case <-r.writersDoneC:
+		case <-r.forceC:
 		}
+		r.eventsRunning.Add(1)
+		r.eventsWaiting.Add(-1)
+		defer r.eventsRunning.Add(-1)
 		if f.DelayUs > 0 {
 			time.Sleep(time.Duration(f.DelayUs) * time.Microsecond)
 		}
@@ -347,10 +429,27 @@ func runC11Mux(c C11Case) (ev.Outcome, bool) {
 	var stackDump string
 	// phase 1: run until everything has ended (a failure of the whole mux) or the traffic is
 	// complete and everybody idles (no mux-wide failure: the final Close is the failure event)
-	exited := r.waitSettled(allDone, primDone, &stackDump)
+	st := r.waitSettled(allDone, primDone, &stackDump)
 	if r.hang == "" {
+		for _, s := range r.stale {
+			if s.ro.StaleQuiet > 0 {
+				r.closeStale(s, s.ro.StaleQuiet, "when all traffic was done")
+				r.addClass("stale_close_when_quiet")
+			}
+		}
+	}
+	if r.hang == "" {
+		exited := st == settledExited
 		if !exited {
-			r.classes["orderly_close_when_quiescent"] = true
+			if st == settledQuiet {
+				r.addClass("orderly_close_when_quiescent")
+			} else {
+				// frames written without error are not (yet) delivered and nothing moves: completeness is
+				// not C11's matter; go on with the final Close while they are outstanding
+				r.failMu.Lock()
+				r.lenient["final_close_with_undelivered_frames"] = true
+				r.failMu.Unlock()
+			}
 			r.snapshotActivity()
 		}
 		r.closeMux(c.Final.Side, c.Final.Closers, c.Final.Repeat, "final")
@@ -364,6 +463,9 @@ func runC11Mux(c C11Case) (ev.Outcome, bool) {
 		if r.hang == "" {
 			r.probes()
 		}
+		if r.hang == "" {
+			r.drainStale()
+		}
 	}
 	if r.hang != "" && stackDump == "" {
 		stackDump = stacks()
@@ -375,22 +477,22 @@ func runC11Mux(c C11Case) (ev.Outcome, bool) {
 // waitSettled waits until every goroutine of the case has ended (returns true) or, as long as
 // no mux-wide failure has happened, until the case is quiescent (returns false). A lack of
 // progress for hangAfter is a hang if a call is stuck that must return.
-func (r *c11run) waitSettled(allDone, primDone chan struct{}, stackDump *string) bool {
+func (r *c11run) waitSettled(allDone, primDone chan struct{}, stackDump *string) settled {
 	last, lastChange := r.progress.Load(), time.Now()
 	tk := time.NewTicker(20 * time.Millisecond)
 	defer tk.Stop()
 	for {
 		select {
 		case <-allDone:
-			return true
+			return settledExited
 		default:
 		}
 		if !r.globalFailure.Load() && r.quiescent(primDone) && !r.globalFailure.Load() {
-			return false
+			return settledQuiet
 		}
 		select {
 		case <-allDone:
-			return true
+			return settledExited
 		case <-r.poke:
 		case <-tk.C:
 		}
@@ -398,12 +500,60 @@ func (r *c11run) waitSettled(allDone, primDone chan struct{}, stackDump *string)
 			last, lastChange = p, time.Now()
 			continue
 		}
-		if time.Since(lastChange) > hangAfter {
+		idle := time.Since(lastChange)
+		if idle > stuckAfter && !r.globalFailure.Load() && !r.mustReturnPending() {
+			// nothing moves although frames written without error are outstanding (not C11's matter):
+			// do not wait for the triggers of the failure / stale-close events any longer
+			r.forceOnce.Do(func() { close(r.forceC) })
+			select {
+			case <-primDone:
+				return settledStuck
+			default:
+			}
+			if r.eventsWaiting.Load() > 0 || r.eventsRunning.Load() > 0 {
+				lastChange = time.Now()
+				continue
+			}
+		}
+		if idle > hangAfter {
 			*stackDump = stacks()
-			r.analyseStuck()
-			return false
+			r.analyseStuck(primDone)
+			if r.hang == "" {
+				return settledStuck
+			}
+			return settledHang
 		}
 	}
+}
+
+type settled int
+
+const (
+	settledExited settled = iota // every goroutine of the case has ended
+	settledQuiet                 // no mux-wide failure; all traffic done, all readers idle
+	settledStuck                 // no mux-wide failure; nothing moves although frames are outstanding
+	settledHang                  // a call that has to return did not
+)
+
+// stuckAfter: how long the case waits, without any progress, for frames that were written
+// without error before it goes on to the final Close anyway (no verdict depends on it).
+const stuckAfter = 2 * time.Second
+
+// mustReturnPending: some call is in progress that has to return (started after an error was
+// observed on its connection), or a failure/stale-close event is being applied.
+func (r *c11run) mustReturnPending() bool {
+	if r.eventsRunning.Load() > 0 {
+		return true
+	}
+	for _, s := range r.streams {
+		if s.inReadSince.Load() != 0 && !s.readerExited.Load() && s.readAfterErr.Load() {
+			return true
+		}
+		if s.inWriteSince.Load() != 0 && !s.writerExited.Load() && s.writeAfterErr.Load() {
+			return true
+		}
+	}
+	return false
 }
 
 func (r *c11run) quiescent(primDone chan struct{}) bool {
@@ -424,7 +574,7 @@ func (r *c11run) quiescent(primDone chan struct{}) bool {
 }
 
 // analyseStuck is called when nothing moved for hangAfter.
-func (r *c11run) analyseStuck() {
+func (r *c11run) analyseStuck(primDone chan struct{}) {
 	now := time.Now().UnixNano()
 	var must, other []string
 	for _, s := range r.streams {
@@ -453,19 +603,11 @@ func (r *c11run) analyseStuck() {
 	case r.globalFailure.Load():
 		r.hangf("after the failure (%s) the case did not come to an end within %v (no call blocked: %v)", r.c.Failure.Kind, hangAfter, other)
 	default:
-		// frames were written successfully, nothing failed, and they are not delivered: not a C11
-		// matter (completeness is C10); cannot be judged here
-		if os.Getenv("MUXDEBUG") != "" {
-			b, _ := json.Marshal(r.c)
-			fmt.Fprintf(os.Stderr, "STUCK %s\n%v\n", b, other)
-			for _, s := range r.streams {
-				fmt.Fprintf(os.Stderr, "  %s planned=%d started=%d written=%d received=%d rexit=%v wexit=%v inread=%v\n", s.name, len(s.frames), s.started.Load(), s.written.Load(), s.received.Load(), s.readerExited.Load(), s.writerExited.Load(), s.inReadSince.Load() != 0)
-			}
+		select {
+		case <-primDone:
+		default:
+			r.hangf("the failure event (%s) or a repeated Close of a stale handle did not finish within %v", r.c.Failure.Kind, hangAfter)
 		}
-		r.failMu.Lock()
-		r.hang = "stuck-without-failure: " + fmt.Sprint(other)
-		r.lenient["stuck_without_failure"] = true
-		r.failMu.Unlock()
 	}
 }
 
@@ -495,14 +637,18 @@ func (r *c11run) writer(s *c11stream, hookTrigger bool) {
 	}
 	failures := 0
 	for i, l := range sizes {
-		d := payloadDesc{Conn: s.spec.Conn, Dir: s.spec.Dir, Writer: 0, Seq: i, Len: l, ID: r.c.IDs[s.spec.Conn]}
+		d := payloadDesc{Conn: s.spec.Conn, Dir: s.spec.Dir, Writer: 0, Seq: i, Len: l, ID: r.ids[s.spec.Conn]}
 		d.fill(buf[:l])
 		nf := nFrames(l)
 		if useCredits {
 			s.cred.acquire(nf)
 		}
-		if n := r.writeStarts.Add(1); !hookTrigger && n == int64(r.c.Failure.AfterWrites) {
+		wn := r.writeStarts.Add(1)
+		if !hookTrigger && wn == int64(r.c.Failure.AfterWrites) {
 			r.trigOnce.Do(func() { close(r.trigC) })
+		}
+		if ch := r.writeTrig[wn]; ch != nil {
+			close(ch)
 		}
 		mustFail := r.observed[s.wrSide][s.spec.Conn].Load()
 		s.writeAfterErr.Store(mustFail)
@@ -554,7 +700,7 @@ func (r *c11run) reader(s *c11stream) {
 	bp := getBuf()
 	defer putBuf(bp)
 	buf := *bp
-	id := r.c.IDs[s.spec.Conn]
+	id := r.ids[s.spec.Conn]
 	consec := 0
 	sawErr := false
 	total := int64(len(s.frames))
@@ -701,7 +847,7 @@ func (r *c11run) closeConn(side, conn, closers, repeat int) {
 	select {
 	case <-done:
 	case <-time.After(hangAfter):
-		r.hangf("Close of connection id=%d on mux %d by %d closer(s) x %d did not return within %v", r.c.IDs[conn], side, closers, repeat, hangAfter)
+		r.hangf("Close of connection id=%d on mux %d by %d closer(s) x %d did not return within %v", r.ids[conn], side, closers, repeat, hangAfter)
 	}
 	r.tick()
 }
@@ -740,12 +886,12 @@ func (r *c11run) probes() {
 				select {
 				case x := <-ch:
 					if x.what != "" {
-						r.failf("%s on id=%d (mux %d) after Close: %s", op, r.c.IDs[ci], side, x.what)
+						r.failf("%s on id=%d (mux %d) after Close: %s", op, r.ids[ci], side, x.what)
 					} else if x.err == nil {
-						r.failf("%s on id=%d (mux %d) succeeded after both multiplexers had been closed (must return an error)", op, r.c.IDs[ci], side)
+						r.failf("%s on id=%d (mux %d) succeeded after both multiplexers had been closed (must return an error)", op, r.ids[ci], side)
 					}
 				case <-time.After(hangAfter):
-					r.hangf("%s on id=%d (mux %d) made after both multiplexers were closed did not return within %v", op, r.c.IDs[ci], side, hangAfter)
+					r.hangf("%s on id=%d (mux %d) made after both multiplexers were closed did not return within %v", op, r.ids[ci], side, hangAfter)
 					return
 				}
 			}
